@@ -7,8 +7,8 @@ the blueprint the real builder emitted.
         S3's next-state semantics applied to the value the observation showed in s.
   base lemma:            the same from the all-zero state.
   cover:                 a settled state exists (the step lemma is not vacuous).
-  iteration lemma (C04): for every state s and constant inputs i: obs(step^L(s)) == f(obs(s))
-        (f = S3 value of the written expression), for the latency L found by simulation.
+  iteration lemma (C04): for every state s reachable by a warm-up of W ticks from an arbitrary state, and constant
+        inputs i: obs(step^L(s)) == f(obs(s))  (f = S3 value of the written expression), latency L found by simulation.
 
 Induction over the history (base + step) gives the property for histories of any length in which every
 step is held for at least K ticks.  The program-shape quantifier stays bounded (enumerated scope)."""
@@ -219,7 +219,9 @@ def iteration_lemma(pid, src, L, optimize=True, timeout_ms=60000):
     except Rejected as e:
         return [{"name": f"template:{pid}", "status": "undecided", "detail": f"rejected: {e}", "backend": "", "ms": 0}]
     B = M.B
-    s0 = M.fresh_state("s")
+    # every state reachable after a warm-up of W ticks under the held inputs (W = number of combinators: by then every
+    # combinator that depends on the inputs alone shows its settled value), from an ARBITRARY state
+    s0 = M.step(M.fresh_state("s"), M.inputs("i"), len(M.combs))
     i0 = M.inputs("i")
     sem0 = M.s3(i0, {})
     v = sem0.outputs().get("out")
@@ -233,7 +235,7 @@ def iteration_lemma(pid, src, L, optimize=True, timeout_ms=60000):
     got = M.obs(sL, i0, "out", v)
     r, ms, model = _check(timeout_ms, got != fx)
     rec = {"name": f"template:{pid}:iteration(L={L}){'' if optimize else ':noopt'}", "backend": "z3-" + z3.get_version_string(), "ms": ms,
-           "vc": f"forall state, inputs: reader(step^{L}(s)) == f(reader(s))"}
+           "vc": f"forall state s0, inputs; s = step^W(s0) (warm-up W = #combinators): reader(step^{L}(s)) == f(reader(s))"}
     if r == z3.unsat:
         rec["status"] = "proved"
     elif r == z3.sat:
